@@ -366,8 +366,9 @@ impl MutableArchive {
         let file_offset = self.get_archive_end_offset()?;
 
         // Compress the file data if requested
+        let relative_file_pos = (file_offset - self.archive.archive_offset()) as u32;
         let (compressed_data, compressed_size, flags) =
-            self.prepare_file_data(data, &archive_name, &options)?;
+            self.prepare_file_data(data, &archive_name, &options, relative_file_pos)?;
 
         // Write the file data to the archive
         self.file.seek(SeekFrom::Start(file_offset))?;
@@ -987,6 +988,7 @@ impl MutableArchive {
         data: &[u8],
         archive_name: &str,
         options: &AddFileOptions,
+        relative_file_pos: u32,
     ) -> Result<(Vec<u8>, usize, u32)> {
         let mut flags = BlockEntry::FLAG_EXISTS;
         let mut output_data = data.to_vec();
@@ -1018,12 +1020,13 @@ impl MutableArchive {
         // Encrypt if requested
         if options.encrypt {
             let plain_name = crate::path::plain_file_name(archive_name);
+            let base_key = hash_string(plain_name, hash_type::FILE_KEY);
             let key = if options.fix_key {
-                // For FIX_KEY, we need the block position
-                // This is a simplified version - real implementation would adjust by block
-                hash_string(plain_name, hash_type::FILE_KEY)
+                // FIX_KEY adjusts the key by the file position and the uncompressed size,
+                // exactly as the reader (and ArchiveBuilder) derive it
+                base_key.wrapping_add(relative_file_pos) ^ (data.len() as u32)
             } else {
-                hash_string(plain_name, hash_type::FILE_KEY)
+                base_key
             };
 
             // Remember original length before padding (reserved for future use)
